@@ -13,7 +13,12 @@
      names_key     the operation learns / imports / forgets exactly this pattern
                    text (the key of _learned_patterns)
      icheck        InnateImmunity.check with the validators as arbitrary
-                   functions content -> VRet valid err_truthy | VRaises *)
+                   functions content -> VRet valid err_truthy | VRaises
+     v_json, v_length, v_charset   the three shipped validators (json.loads an
+                   oracle); depth = nesting depth of a parsed document
+     burst_ops     (Model.v) a counted burst of filter calls on pairwise
+                   different inputs: an ordinary list of operations, so every
+                   theorem about mrun covers histories containing bursts *)
 From Coq Require Import String ZArith List Bool.
 From Verif Require Import C10.Regex C10.RegexProofs C10.Model C10.Proofs C10.Run.
 Import ListNotations.
@@ -145,6 +150,27 @@ Theorem c10_replay_memory_monotone :
 Proof. exact m_replay_memory. Qed.
 Print Assumptions c10_replay_memory_monotone.
 
+(* The replay memory has NO CAPACITY: over a history of any length (1) the
+   memory is the old one followed by the hash of every scan-blocked decision,
+   in order - nothing is ever dropped, reordered or replaced; (2) its size (the
+   `blocked_hashes` statistic) is the old size plus the number of scan-blocked
+   decisions; (3) whichever decision of a history blocked an input by a scan -
+   the first of 100 000 or the last - the input is refused after that history
+   and after every continuation of it (relaxations included). *)
+Theorem c10_replay_memory_unbounded :
+  (forall cfg ops st,
+     m_blocked (fst (mrun cfg st ops)) =
+     m_blocked st ++ map r_hash (filter scan_blocked (snd (mrun cfg st ops)))) /\
+  (forall cfg ops st,
+     length (m_blocked (fst (mrun cfg st ops))) =
+     (length (m_blocked st) + length (filter scan_blocked (snd (mrun cfg st ops))))%nat) /\
+  (forall cfg ops st r,
+     In r (snd (mrun cfg st ops)) -> r_kind r = Scanned -> r_allowed r = false ->
+     forall ops2 c', c_hash cfg c' = r_hash r ->
+     r_allowed (snd (mfilter cfg (fst (mrun cfg (fst (mrun cfg st ops)) ops2)) c')) = false).
+Proof. exact replay_memory_unbounded_all. Qed.
+Print Assumptions c10_replay_memory_unbounded.
+
 (* "No ACTIVE signature (... learned or imported) matches": which learned and
    imported signatures are active.  A signature put into the adaptive memory by
    learn_threat (enable_adaptive) or import_antibodies (1,2) stays there, with
@@ -235,6 +261,39 @@ Theorem c10_audit_appends_every_decision :
      m_audit (fst (mrun cfg st ops)) = m_audit st ++ snd (mrun cfg st ops)).
 Proof. exact (conj m_audit_step (conj mstep_filter_only m_audit_history)). Qed.
 Print Assumptions c10_audit_appends_every_decision.
+
+(* "No structural validator rejects it", for the three SHIPPED validators, in
+   terms of the input itself.  json.loads is an oracle [parse] (any function
+   from contents to "this document" / "raised ValueError or RecursionError").
+   (1) _measure_depth with its early return exceeds max_depth exactly when the
+   nesting depth of the document does (for every max_depth, negative ones
+   included); (2) JSONValidator accepts iff the content is no longer than
+   max_size, parses, and is nested no deeper than max_depth - and otherwise
+   rejects WITH a message (so check() counts it), it never raises;
+   (3,4) the same for LengthValidator and CharacterSetValidator;
+   (5) whatever else is in the validator list: an input check() allows satisfies
+   the acceptance condition of every shipped validator in the list. *)
+Theorem c10_shipped_validators_exact :
+  (forall md t, (md <? measure_depth md t 0) = (md <? depth t)) /\
+  (forall md mx parse c,
+     (v_json md mx parse c = VRet true false \/ v_json md mx parse c = VRet false true) /\
+     (v_json md mx parse c = VRet true false <->
+      Z.of_nat (length c) <= mx /\ exists t, parse c = PTree t /\ depth t <= md)) /\
+  (forall mn mx c,
+     (v_length mn mx c = VRet true false \/ v_length mn mx c = VRet false true) /\
+     (v_length mn mx c = VRet true false <-> mn <= Z.of_nat (length c) <= mx)) /\
+  (forall ac an c,
+     (v_charset ac an c = VRet true false \/ v_charset ac an c = VRet false true) /\
+     (v_charset ac an c = VRet true false <->
+      (an = true \/ forall x, In x c -> x <> 0) /\ (ac = true \/ forall x, In x c -> is_ctrl x = false))) /\
+  (forall cc vals st c st' r, icheck cc vals st c = (st', IOk r) -> ir_allowed r = true ->
+     (forall md mx parse, In (v_json md mx parse) vals ->
+        Z.of_nat (length c) <= mx /\ exists t, parse c = PTree t /\ depth t <= md) /\
+     (forall mn mx, In (v_length mn mx) vals -> mn <= Z.of_nat (length c) <= mx) /\
+     (forall ac an, In (v_charset ac an) vals ->
+        (an = true \/ forall x, In x c -> x <> 0) /\ (ac = true \/ forall x, In x c -> is_ctrl x = false))).
+Proof. exact shipped_validators_all. Qed.
+Print Assumptions c10_shipped_validators_exact.
 
 (* Totality.  (1) The regex matcher decides the inductive matching relation
    for every regex and every string: in particular its Star fuel never runs out
